@@ -9,7 +9,7 @@ From V.lib Require Import Base.
 From V.c15 Require Import C15Model C15Spec C15HevcModel C15HevcSpec C15Examples C15HevcSliceExamples.
 From V.c06 Require Import C06SencModel C06SencAuxProofs.
 From V.c07 Require Import C07Model C07Spec C07RangeProofs C07CryptProofs C07AuxProofs C07FinalProofs.
-From V.c07 Require Import C07CodecModel C07CodecProofs C07FragProofs C07OnlyProofs C07TrafModel C07TrafProofs.
+From V.c07 Require Import C07CodecModel C07CodecProofs C07FragProofs C07OnlyProofs C07TrafModel C07TrafProofs C07MixedProofs.
 
 (* AppendProtectRange, every nrClear / nrProtected (65535, 65536, 131070, ... included) *)
 Theorem C07_append_protect_range : forall ssps c p,
@@ -20,11 +20,13 @@ Proof. exact append_protect_range_final. Qed.
 Print Assumptions C07_append_protect_range.
 
 (* the sub-sample entries partition the sample exactly, clear counts fit 16 bits, protected counts are whole
-   blocks — for every NALU layout (AVC and HEVC: any isvideo) *)
+   blocks — for EVERY non-empty list of NAL units of ANY sizes, 0 (a bare length field), 1 and 2 (shorter than an
+   HEVC NAL header) included (AVC and HEVC: any isvideo).  protect_ranges_r = the text since /repo 401deba; with the
+   text before it (protect_ranges) a trailing empty NAL unit was not covered: C07_partition_pinned_refuted *)
 Theorem C07_partition : forall (isvideo : N -> bool) (hdr : list N -> res N) (nalus : list (list N)),
-  wf_nalus nalus = true ->
+  nalus <> [] ->
   lenN (frames nalus) < 4294967296 ->
-  exists r, protect_ranges isvideo hdr Cenc (frames nalus) = Ok r /\
+  exists r, protect_ranges_r isvideo hdr Cenc (frames nalus) = Ok r /\
             sumN (map (fun p => ss_clear p + ss_prot p) r) = lenN (frames nalus) /\
             Forall (fun p => ss_clear p < 65536 /\ ss_prot p mod 16 = 0) r.
 Proof. exact partition_final. Qed.
@@ -35,9 +37,9 @@ Print Assumptions C07_partition.
    multiple of 16, leaves 96..111 bytes clear from the length field on, and protects every NALU longer than
    127 bytes starting at most 127 bytes in *)
 Theorem C07_cenc_shape : forall (isvideo : N -> bool) (hdr : list N -> res N) (nalus : list (list N)),
-  wf_nalus nalus = true ->
+  nalus <> [] ->
   lenN (frames nalus) < 4294967296 ->
-  (exists r, protect_ranges isvideo hdr Cenc (frames nalus) = Ok r /\
+  (exists r, protect_ranges_r isvideo hdr Cenc (frames nalus) = Ok r /\
              expand r = spec_mask isvideo (fun n => prot_cenc (lenN n)) nalus) /\
   (forall L, (0 < prot_cenc L <-> 112 <= L + 4) /\
              prot_cenc L mod 16 = 0 /\
@@ -51,10 +53,10 @@ Print Assumptions C07_cenc_shape.
    of a video NALU are exactly those after its slice header *)
 Theorem C07_cbcs_shape : forall (isvideo : N -> bool) (hdr : list N -> res N) (hs : list N -> N)
                                 (nalus : list (list N)),
-  wf_nalus nalus = true ->
+  wf_nalus_cbcs nalus = true ->
   lenN (frames nalus) < 4294967296 ->
   (forall n, In n nalus -> first_is_video isvideo n = true -> hdr n = Ok (hs n) /\ hs n <= lenN n) ->
-  exists r, protect_ranges isvideo hdr Cbcs (frames nalus) = Ok r /\
+  exists r, protect_ranges_r isvideo hdr Cbcs (frames nalus) = Ok r /\
             expand r = spec_mask isvideo (fun n => lenN n - hs n) nalus /\
             sumN (map (fun p => ss_clear p + ss_prot p) r) = lenN (frames nalus) /\
             Forall (fun p => ss_clear p < 65536) r.
@@ -165,7 +167,7 @@ Theorem C07_cbcs_shape_avc :
   forall (E D : list N -> list N -> list N) spsmap ppsmap key iv (nalus : list (list N)),
   (forall k b, length (E k b) = 16%nat) -> (forall k b, length (D k b) = 16%nat) ->
   key_ok key = true -> length iv = 16%nat ->
-  wf_nalus nalus = true -> lenN (frames nalus) < 4294967296 ->
+  wf_nalus_cbcs nalus = true -> lenN (frames nalus) < 4294967296 ->
   (forall n, In n nalus -> first_is_video avc_is_video n = true ->
      exists sh, parse_slice_er spsmap ppsmap n = Ok sh /\ sh_size sh <= lenN n) ->
   exists r, avc_protect_ranges spsmap ppsmap Cbcs (frames nalus) = Ok r /\
@@ -183,7 +185,7 @@ Theorem C07_cbcs_shape_hevc :
   forall (E D : list N -> list N -> list N) spsmap ppsmap key iv (nalus : list (list N)),
   (forall k b, length (E k b) = 16%nat) -> (forall k b, length (D k b) = 16%nat) ->
   key_ok key = true -> length iv = 16%nat ->
-  wf_nalus nalus = true -> lenN (frames nalus) < 4294967296 ->
+  wf_nalus_cbcs nalus = true -> lenN (frames nalus) < 4294967296 ->
   (forall n, In n nalus -> first_is_video hevc_is_video n = true ->
      exists sh, hparse_slice_er spsmap ppsmap n = Ok sh /\ s_size sh <= lenN n) ->
   exists r, hevc_protect_ranges spsmap ppsmap Cbcs (frames nalus) = Ok r /\
@@ -294,6 +296,61 @@ Theorem C07_aux_traf :
 Proof. exact aux_traf. Qed.
 Print Assumptions C07_aux_traf.
 
+(* ---------------------------------------------------------------- second extension *)
+(* EVERY sample Get(AVC|HEVC)ProtectRanges accepts gets at least one sub-sample entry (any bytes, any scheme, any
+   slice-header parser): SaizBox.AddSampleInfo / SencBox.AddSample never see a video fragment mixing samples with
+   and without entries *)
+Theorem C07_subsamples_nonempty : forall isvideo hdr sch sample r,
+  lenN sample < 4294967296 -> protect_ranges_r isvideo hdr sch sample = Ok r -> r <> [].
+Proof. exact protect_ranges_r_nonempty. Qed.
+Print Assumptions C07_subsamples_nonempty.
+
+(* the text before 401deba: a 4-byte sample got no entry; a final empty NAL unit was left out of the partition *)
+Theorem C07_partition_pinned_refuted :
+  (forall isvideo hdr sch, protect_ranges isvideo hdr sch [0; 0; 0; 0] = Ok [] /\
+                           protect_ranges_r isvideo hdr sch [0; 0; 0; 0] = Ok [mkSsp 4 0]) /\
+  protect_ranges avc_is_video (fun _ => Err) Cenc (frames [[101; 1]; []]) = Ok [mkSsp 6 0] /\
+  protect_ranges_r avc_is_video (fun _ => Err) Cenc (frames [[101; 1]; []]) = Ok [mkSsp 10 0] /\
+  lenN (frames [[101; 1]; []]) = 10.
+Proof. split; [exact protect_ranges_pinned_empty|]. vm_compute. repeat split; reflexivity. Qed.
+Print Assumptions C07_partition_pinned_refuted.
+
+(* C07_aux_traf for EVERY video fragment (no uniformity hypothesis): the saiz sizes and the saio offset describe the
+   senc entries actually written, whatever mix of samples with 0 and > 0 protected NAL units, 4-byte samples or
+   trailing empty NAL units the fragment holds; every sample has a non-empty entry list *)
+Theorem C07_aux_traf_video :
+  forall (E D : list N -> list N -> list N) isvideo hdr sch key iv cb sb f g,
+  let protfunc := protect_ranges_r isvideo hdr sch in
+  encrypt_fragment_bytes E D protfunc sch key iv cb sb f = Ok g ->
+  Forall (fun s => lenN s < 4294967296) (bf_samples f) -> bf_samples f <> [] ->
+  let ivsz := match sch with Cenc => 16 | _ => 0 end in
+  (forall encs, encrypt_samples E D protfunc sch key (pad_iv iv) cb sb (bf_samples f) = Ok encs ->
+                forallb (fun e => lenN e <? 256) (entries_of ivsz true encs) = true) ->
+  exists encs z saizb off sencb,
+    encrypt_samples E D protfunc sch key (pad_iv iv) cb sb (bf_samples f) = Ok encs /\
+    Forall (fun e => e_ssps e <> []) encs /\
+    saiz_of saiz_empty encs = Ok z /\ saiz_encode z = Ok saizb /\
+    bf_traf g = bf_traf f ++ [saizb; saio_encode off; sencb] /\
+    saio_offset_field (saio_encode off) = u32 off /\
+    aux_walk (saiz_sizes z) (skipn (N.to_nat off) (moof_bytes g))
+    = (entries_of ivsz true encs, concat (bf_after f)) /\
+    concat (entries_of ivsz true encs) ++ concat (bf_after f) = skipn (N.to_nat off) (moof_bytes g) /\
+    sz_count z = lenN encs.
+Proof. exact aux_traf_video. Qed.
+Print Assumptions C07_aux_traf_video.
+
+(* finding C07-F3 (fixed by 401deba) in the model of the text before it: normal sample + 4-byte sample, cenc: saiz
+   announces 16 and 16 bytes, the senc box (SencBox.AddSample as repaired by ecf1460) holds entries of 24 and 18 *)
+Theorem C07_aux_mixed_pinned_refuted :
+  exists encs z s es,
+    encrypt_samples_cenc mixed_E (protect_ranges avc_is_video (fun _ => Err) Cenc) (repeat 7 16) (repeat 1 16)
+      [frames [101 :: repeat 7 139]; [0; 0; 0; 0]] = Ok encs /\
+    map e_ssps encs = [[mkSsp 96 48]; []] /\
+    saiz_of saiz_empty encs = Ok z /\ saiz_sizes z = [16; 16] /\
+    senc_of_r senc_empty encs = Ok s /\ senc_entries s 0 2 = Ok es /\ map (fun e => lenN e) es = [24; 18].
+Proof. exact aux_mixed_pinned_refuted. Qed.
+Print Assumptions C07_aux_mixed_pinned_refuted.
+
 (* ---------------------------------------------------------------- the hypotheses are satisfiable *)
 Definition ex_nalus : list (list N) :=
   [ [9; 240];                                  (* AUD, 2 bytes *)
@@ -301,18 +358,19 @@ Definition ex_nalus : list (list N) :=
     [6; 5; 1; 128];                            (* SEI *)
     65 :: repeat 3 106 ].                      (* non-IDR slice, 107 bytes: 111 < 112, clear *)
 
-Example ex_wf : wf_nalus ex_nalus = true /\ lenN (frames ex_nalus) < 4294967296.
-Proof. vm_compute. split; reflexivity. Qed.
+Example ex_wf : ex_nalus <> [] /\ wf_nalus_cbcs ex_nalus = true /\ lenN (frames ex_nalus) < 4294967296.
+Proof. split; [discriminate|]. vm_compute. split; reflexivity. Qed.
 
 Example ex_ranges :
-  protect_ranges avc_is_video (fun _ => Err) Cenc (frames ex_nalus) = Ok [mkSsp 102 48; mkSsp 119 0].
+  protect_ranges_r avc_is_video (fun _ => Err) Cenc (frames ex_nalus) = Ok [mkSsp 102 48; mkSsp 119 0].
 Proof. vm_compute. reflexivity. Qed.
 
-(* why the theorems ask for non-empty NAL units: a trailing empty NALU (length field 0) is not covered by the
-   entries (the Go loop stops at pos >= len-4); such a sample is not a NALU layout of the property *)
-Example ex_trailing_empty_nalu :
-  protect_ranges avc_is_video (fun _ => Err) Cenc (frames [[101; 1]; []]) = Ok [mkSsp 6 0] /\
-  lenN (frames [[101; 1]; []]) = 10.
+(* NAL units of 0, 1 and 2 bytes in one HEVC sample (cenc): the empty ones are clear length fields, the sample is
+   covered to its last byte *)
+Example ex_tiny_nalus :
+  protect_ranges_r hevc_is_video (fun _ => Err) Cenc (frames [[]; [2]; [64; 1]; 2 :: repeat 9 200; []])
+  = Ok [mkSsp 124 96; mkSsp 4 0] /\
+  lenN (frames [[]; [2]; [64; 1]; 2 :: repeat 9 200; []]) = 224.
 Proof. vm_compute. split; reflexivity. Qed.
 
 (* a block function satisfying the only hypothesis on E, and a run of the fragment loop with an ff..ff IV *)
@@ -324,7 +382,7 @@ Proof.
 Qed.
 
 Definition ex_run : res (list enc_sample) :=
-  encrypt_samples_cenc ex_E (protect_ranges avc_is_video (fun _ => Err) Cenc) (repeat 7 16) (repeat 255 16)
+  encrypt_samples_cenc ex_E (protect_ranges_r avc_is_video (fun _ => Err) Cenc) (repeat 7 16) (repeat 255 16)
     [frames ex_nalus; frames ex_nalus].
 
 Example ex_fragment :
@@ -343,7 +401,7 @@ Definition ex_hevc_nalus : list (list N) :=
     [80; 1; 5; 5] ].
 
 Example ex_hevc_hyp :
-  wf_nalus ex_hevc_nalus = true /\ lenN (frames ex_hevc_nalus) < 4294967296 /\
+  wf_nalus_cbcs ex_hevc_nalus = true /\ lenN (frames ex_hevc_nalus) < 4294967296 /\
   forall n, In n ex_hevc_nalus -> first_is_video hevc_is_video n = true ->
     exists sh, hparse_slice_er ex_spsmap ex_ppsmap n = Ok sh /\ s_size sh <= lenN n.
 Proof.
@@ -377,7 +435,7 @@ Definition ex_bfrag : bfrag :=
        [frames ex_nalus; frames ex_nalus].
 
 Example ex_fragment_bytes :
-  match encrypt_fragment_bytes ex_E ex_E (protect_ranges avc_is_video (fun _ => Err) Cenc) Cenc (repeat 7 16)
+  match encrypt_fragment_bytes ex_E ex_E (protect_ranges_r avc_is_video (fun _ => Err) Cenc) Cenc (repeat 7 16)
           (repeat 255 8) 0 0 ex_bfrag with
   | Ok g => length (bf_traf g) = 5%nat /\
             aux_walk [30; 30] (skipn 104 (moof_bytes g)) =
